@@ -19,7 +19,7 @@ RULE = ('generated classes: 1-2 interfaces with 1-4 properties each over every b
         'holds exactly the readable properties of i over the whole class hierarchy, GetAll("") their union; one '
         'PropertiesChanged(interface, {name: value}, []) per assignment when the mode is true, none when false. '
         'Non-trivial = a Set followed by a Get, or a colliding property name, or an inherited property; distinct = '
-        'case JSON.')
+        'case JSON. A third of the descriptors are bound to their class after the class statement (setattr).')
 ASSUMPTIONS = ['properties are assigned before export in their natural Python type - after construction, or (a third of the '
                'cases) by a subclass constructor before DBusObject.__init__ runs; later assignments also use values wrapped '
                'in the declared or in another fitting txdbus integer type',
@@ -88,13 +88,20 @@ def _build(case):
     subifs = [ifs[s['name']] for s in case['ifaces'] if s['level'] == 1]
     if subifs:
         sub_ns['dbusInterfaces'] = subifs
-    for a in case['attrs']:
+    late = []
+    for i, a in enumerate(case['attrs']):
         ns = sub_ns if a['level'] == 1 else base_ns
-        ns[a['attr']] = O.DBusProperty(a['pname'], a['iface'] if a['explicit'] else None)
+        d = O.DBusProperty(a['pname'], a['iface'] if a['explicit'] else None)
+        if (i + len(case['attrs'])) % 3 == 2:
+            late.append((a['level'], a['attr'], d))     # bound to the class after the class statement (a property table)
+        else:
+            ns[a['attr']] = d
     if len(case['attrs']) % 2:
         sub_ns['__len__'] = lambda self: 0      # the exported object may be false in a boolean context
     Base = type('PBase', (O.DBusObject,), base_ns)
     Sub = type('PSub', (Base,), sub_ns)
+    for level, attr, d in late:
+        setattr(Sub if level == 1 else Base, attr, d)
     return Sub
 
 
@@ -108,7 +115,7 @@ def _pspec(case, iface, pname):
 
 
 def _send(MSG, h, conn, path, member, sig, trees, serial):
-    raw = R.encode_message(1, serial, {1: path, 2: PROPS_IF, 3: member, 7: ':1.8', 6: ':1.2'}, sig, trees)
+    raw = R.encode_variant(serial, 1, serial, {1: path, 2: PROPS_IF, 3: member, 7: ':1.8', 6: ':1.2'}, sig, trees)
     del conn.sent[:]
     h.handleMethodCallMessage(MSG.parseMessage(raw, []))
     out = list(conn.sent)
